@@ -2,6 +2,7 @@ package gltf
 
 import (
 	"image/color"
+	"reflect"
 
 	"github.com/EliCDavis/polyform/math/quaternion"
 	"github.com/EliCDavis/polyform/math/trs"
@@ -127,6 +128,13 @@ func (pm *PolyformMaterial) equal(other *PolyformMaterial) bool {
 	if !float64PtrsEqual(pm.AlphaCutoff, other.AlphaCutoff) {
 		return false
 	}
+	if !pm.NormalTexture.equal(other.NormalTexture) ||
+		!pm.OcclusionTexture.equal(other.OcclusionTexture) {
+		return false
+	}
+	if !reflect.DeepEqual(pm.Extras, other.Extras) {
+		return false
+	}
 	if len(pm.Extensions) != len(other.Extensions) {
 		return false
 	}
@@ -180,6 +188,21 @@ func (pt *PolyformNormal) equal(other *PolyformNormal) bool {
 		return false
 	}
 	return float64PtrsEqual(pt.Scale, other.Scale)
+}
+
+func (pt *PolyformOcclusion) equal(other *PolyformOcclusion) bool {
+	if pt == other {
+		return true
+	}
+
+	if pt == nil || other == nil {
+		return false
+	}
+
+	if !pt.PolyformTexture.equal(other.PolyformTexture) {
+		return false
+	}
+	return float64PtrsEqual(pt.Strength, other.Strength)
 }
 
 func (pmr *PolyformPbrMetallicRoughness) equal(other *PolyformPbrMetallicRoughness) bool {
